@@ -4,6 +4,29 @@ import json
 import sys
 
 
+def status_table(c):
+    """one row of the status decision table on the real SystemStatusProvider over real controller / status objects"""
+    from harness.sim.boot import boot
+    boot()
+    from pamiq_core.console.system_status import SystemStatusProvider
+    from pamiq_core.thread.thread_control import ThreadController, ThreadStatus, ThreadStatusesMonitor
+    from pamiq_core.thread.thread_types import ThreadTypes
+    ctl = ThreadController()
+    if not c["resume"]:
+        ctl.pause()
+    if c["shutdown"]:
+        ctl._shutdown_event.set()  # the flag alone: every combination of the table is wanted, also unreachable ones
+    sts = []
+    for f in c["flags"]:
+        st = ThreadStatus()
+        if f:
+            st.pause()
+        sts.append(st)
+    keys = [ThreadTypes.INFERENCE, ThreadTypes.TRAINING, ThreadTypes.CONTROL, "x3", "x4"]
+    mon = ThreadStatusesMonitor({keys[i]: s.read_only for i, s in enumerate(sts)})
+    return {"status": SystemStatusProvider(ctl.read_only, mon).get_current_status().status_name}
+
+
 def main():
     import logging
     logging.disable(logging.CRITICAL)
@@ -12,6 +35,9 @@ def main():
     out = []
     for c in cases:
         try:
+            if c.get("kind") == "table":
+                out.append(status_table(c))
+                continue
             r = run_scenario(c)
             r.pop("choices", None)
             out.append(r)
